@@ -12,6 +12,11 @@ R13.4 (semantic store inventory + inlined helper summary) no index type => INDEX
 R13.5 (inlined helper summary) differences are taken in a type that cannot wrap: integer index data are widened before np.diff.
 R13.6 (inlined helper summary) the uniformity test is purely relative (no absolute tolerance that swallows small-step indexes)
       and looks at all differences (not at a slice, a single element or one extreme of them).
+R13.7 (sign abstraction of the helper summary) the direction the helper reports is decided for every sign pattern of the
+      index differences - the differences enter it through comparisons with 0 only, so the seven non-empty subsets of
+      {negative, zero, positive} are all there is: steps >= 0 with a positive one give True, steps <= 0 with a negative
+      one give False (plateaus included), steps of both signs give None.  Reported only when the right answer is
+      impossible under a pattern, or a wrong one certain.
 """
 
 from __future__ import annotations
@@ -36,6 +41,7 @@ def run(chk):
     chk.guard(r13_1_2_4, chk)
     chk.guard(r13_3_stale, chk)
     chk.guard(r13_5_6_spacing, chk)
+    chk.guard(r13_7_direction_by_sign_pattern, chk)
 
 
 def _frame_stores(chk):
@@ -181,6 +187,11 @@ def r13_1_2_4(chk):
                 sense_ok = sense_ok and nonpos
             elif d != NONE:
                 sense_ok = False
+    # (when the sign abstraction of R13.7 reads the tests, it decides the sense exactly; the shape test below is the
+    # fall-back for forms it does not read)
+    if _direction_worlds(chk)[1]:
+        sense_ok = all(d in (K(True), K(False), NONE) for c_, t_ in return_alternatives(cs) if t_[0] == "tuple" and
+                       len(t_[1]) == 2 for _c2, d in alternatives(t_[1][1]))
     chk.require(sense_ok and n_alt >= 3, "R13.4", "direction-sense",
                 "the direction flag is not True exactly under `all differences >= 0` and False under `all <= 0`",
                 comp.where)
@@ -276,3 +287,127 @@ def r13_5_6_spacing(chk):
             any(l[0] == "cmp" and l[1] == "==" and l[3] in (K(0), K(0.0)) for l in c)]
     chk.require(bool(zero) or bool(close), "R13.6", "zero-median-guard", "division by a zero median is not guarded",
                 comp.where, nontrivial=False)
+
+
+# ---------------------------------------------------------------------------------------------- R13.7 sign abstraction
+_CMP = {"==": lambda a, b: a == b, "!=": lambda a, b: a != b, "<": lambda a, b: a < b, "<=": lambda a, b: a <= b,
+        ">": lambda a, b: a > b, ">=": lambda a, b: a >= b}
+
+
+class _Arr:
+    """The index differences (or their sorted unique values) under a sign pattern W: all that is known of the elements
+    is the set of their signs."""
+    def __init__(self, signs, ordered):
+        self.signs, self.ordered = tuple(sorted(signs)), ordered
+
+
+class _Bools:
+    def __init__(self, values):
+        self.values = tuple(values)
+
+
+def _sign_eval(t, W, idx):
+    """Value of term t when the differences of the index have exactly the signs W: True / False / a sign (-1, 0, 1) /
+    _Arr / _Bools, or None when it is not determined by the sign pattern (or not understood)."""
+    from ..terms import is_call, call_arg, contains, call_name
+    if not isinstance(t, tuple) or not t:
+        return None
+    k = t[0]
+    if k == "const":
+        return t[1] if isinstance(t[1], bool) else None
+    if k == "not":
+        v = _sign_eval(t[1], W, idx)
+        return (not v) if isinstance(v, bool) else None
+    if k in ("and", "or"):
+        vs = [_sign_eval(x, W, idx) for x in t[1]]
+        vs = [v if isinstance(v, bool) else None for v in vs]
+        if k == "and":
+            return False if any(v is False for v in vs) else (True if all(v is True for v in vs) else None)
+        return True if any(v is True for v in vs) else (False if all(v is False for v in vs) else None)
+    if k == "cmp" and t[1] in _CMP:
+        a = _sign_eval(t[2], W, idx)
+        zero = t[3] in (("const", 0), ("const", 0.0))
+        if isinstance(a, _Arr) and zero:
+            return _Bools(_CMP[t[1]](s_, 0) for s_ in a.signs)
+        if isinstance(a, int) and not isinstance(a, bool) and zero:
+            return _CMP[t[1]](a, 0)
+        # the number of distinct differences: at least the number of distinct signs
+        if is_call(t[2], "len") and t[3] == ("const", 1):
+            inner = _sign_eval(call_arg(t[2], 0), W, idx)
+            if isinstance(inner, _Arr) and inner.ordered and len(W) > 1:
+                return {"==": False, "!=": True, ">": True, "<=": False, ">=": True, "<": False}[t[1]]
+        return None
+    if k == "sub":
+        a = _sign_eval(t[1], W, idx)
+        if isinstance(a, _Arr) and a.ordered and t[2] in (("const", 0), ("const", -1)):
+            return a.signs[0] if t[2] == ("const", 0) else a.signs[-1]
+        return None
+    if k == "call":
+        name = call_name(t)
+        recv = t[1][1] if isinstance(t[1], tuple) and t[1][0] == "attr" else None
+        arg0 = recv if recv is not None else (t[2][0] if t[2] else None)
+        if name == "diff" and arg0 is not None and contains(arg0, idx) and not (len(t[2]) > (0 if recv is not None else 1)
+                                                                                 or t[3]):
+            return _Arr(W, False)      # first differences of the index data (however widened / converted before)
+        a = _sign_eval(arg0, W, idx) if arg0 is not None else None
+        plain = not t[3] and len(t[2]) == (0 if recv is not None else 1)
+        if isinstance(a, _Arr) and plain:
+            if name in ("unique", "sort", "sorted"):
+                return _Arr(a.signs, True)
+            if name in ("min", "amin", "nanmin"):
+                return a.signs[0]
+            if name in ("max", "amax", "nanmax"):
+                return a.signs[-1]
+            if name in ("asarray", "array", "list", "tuple", "ravel", "flatten", "copy"):
+                return a
+            if name == "set":
+                return _Arr(a.signs, False)
+            if name == "sign":
+                return a
+        if isinstance(a, _Bools) and plain:
+            if name == "all":
+                return all(a.values)
+            if name == "any":
+                return any(a.values)
+        if isinstance(a, (int, bool)) and plain and name in ("item", "bool", "float", "int"):
+            return a
+        return None
+    return None
+
+
+def r13_7_direction_by_sign_pattern(chk):
+    alts, results, comp = _direction_worlds(chk)
+    chk.floor("direction alternatives of the helper", len(alts), 3)
+    for key, ok, msg in results:
+        chk.require(ok, "R13.7", f"direction:{key}-steps", msg, comp.where)
+    chk.info["direction_sign_patterns_decided"] = len(results)
+
+
+def _direction_worlds(chk):
+    from ..terms import K, NONE, pp, return_alternatives, alternatives
+    comp = chk.ix.get_method("FrameItem", "_compute_spacing_and_direction")
+    chk.consult(comp)
+    cs = chk.terms.inline(comp, 2)
+    idx = ("param", comp.param_names[-1])
+    alts = [(tuple(c) + tuple(c2), d) for c, t in return_alternatives(cs) if t[0] == "tuple" and len(t[1]) == 2
+            for c2, d in alternatives(t[1][1])]
+    worlds = {(1,): K(True), (0, 1): K(True), (-1,): K(False), (-1, 0): K(False), (-1, 1): NONE, (-1, 0, 1): NONE}
+    names = {-1: "negative", 0: "zero", 1: "positive"}
+    results = []
+    for W, want in worlds.items():
+        status = []
+        for conds, d in alts:
+            vs = [_sign_eval(c, W, idx) for c in conds]
+            vs = [v if isinstance(v, bool) else None for v in vs]
+            st = False if any(v is False for v in vs) else (True if all(v is True for v in vs) else None)
+            status.append((st, d))
+        if all(st is None for st, _ in status):
+            continue        # the pattern decides nothing here: a form of the test this abstraction does not read
+        right_possible = any(st is not False for st, d in status if d == want)
+        wrong_certain = [d for st, d in status if st is True and d != want and d in (K(True), K(False), NONE)]
+        key = "+".join(names[s_] for s_ in W)
+        results.append((key, right_possible and not wrong_certain,
+                        f"for an index whose steps are {key} the helper reports "
+                        f"{pp(wrong_certain[0]) if wrong_certain else 'anything but ' + pp(want)} as the direction; "
+                        f"{pp(want)} is the monotonic sense (None = there is none)"))
+    return alts, results, comp
